@@ -266,6 +266,8 @@ class State:
 
 
 def install(ctx, st: State):
+    global ENG
+    ENG = ctx.eng
     import peptacular as pt
 
     def pre(args, kwargs):
@@ -335,6 +337,27 @@ def install(ctx, st: State):
 # catalogue of histories' calls on a shared annotation
 # ---------------------------------------------------------------------------------------------------------
 
+KEPT = []      # partially consumed iterators the "caller" still holds (closing one would run its clean-up code)
+
+
+ENG = None     # the engine of the running shard (set by install)
+
+
+def take2(make_it):
+    """the caller takes two items from a lazily produced result and keeps the iterator (zip with a shorter list, an early
+    break, a paging loop): the argument must answer other queries as before while the iterator is still open.
+    The producing call is made with the monitors suspended - the recording layer materialises generator results, which
+    would hide exactly the laziness this entry is about; the verdict comes from the history clauses, not from that
+    call's own contract."""
+    with ENG.suspend():
+        it = iter(make_it())
+        out = [next(it, None), next(it, None)]
+    KEPT.append(it)
+    if len(KEPT) > 6:
+        KEPT.pop(0)
+    return out
+
+
 def ann_calls(pt):
     P = pt
     sub = lambda a: a.slice(0, min(2, len(a)))    # noqa: E731
@@ -390,6 +413,11 @@ def ann_calls(pt):
         ('m.contains_sequence_ambiguity', lambda a: a.contains_sequence_ambiguity()),
         ('m.has_mods', lambda a: a.has_mods()), ('m.count_internal_mods', lambda a: a.count_internal_mods()),
         ('m.eq', lambda a: a == a.copy()), ('m.repr', lambda a: repr(a)),
+        # lazily produced results, two items taken, iterator still open
+        ('m.split-two-taken', lambda a: take2(lambda: a.split())), ('split-two-taken', lambda a: take2(lambda: P.split(a))),
+        ('digest-two-taken', lambda a: take2(lambda: P.digest(a, 'trypsin/P', 1, return_type='annotation'))),
+        ('non_enzymatic-two-taken', lambda a: take2(lambda: P.get_non_enzymatic_sequences(a, max_len=3,
+                                                                                          return_type='annotation'))),
     ]
     return C
 
